@@ -9,7 +9,9 @@ impl<T: Future> FuturesOrdered<T> {
     ) -> Self {
         Self {
             in_progress_queue: inner,
-            queued_outputs: BinaryHeap::new(),
+            // room for every element of a harness: heap growth (realloc of a symbolic
+            // size) is not the subject and alone exceeds 30 GB in CBMC
+            queued_outputs: BinaryHeap::with_capacity(8),
             next_incoming_index: Wrapping(next_in),
             next_outgoing_index: Wrapping(next_out),
         }
